@@ -288,24 +288,33 @@ pub(crate) fn decouple_v_models(
         })
 }
 
+/// The standard cleaning of JSX text: lines are split on line breaks, whitespace next to a
+/// line break and whitespace-only lines are dropped, the remaining lines are joined by one
+/// space. Only spaces and tabs count as whitespace, so everything else (inline spaces at the
+/// ends of the text, non-breaking spaces) is kept.
 pub(crate) fn transform_text(text: &str) -> String {
-    let jsx_text_value = text.replace('\t', " ");
-    let mut jsx_text_lines = jsx_text_value.lines().enumerate().peekable();
+    // CRLF yields an empty line between its two characters, which is dropped like any blank line
+    let lines = text.split(['\r', '\n']).collect::<Vec<_>>();
+    let is_blank = |line: &str| line.chars().all(|c| c == ' ' || c == '\t');
+    let last_non_blank = lines.iter().rposition(|line| !is_blank(line));
 
-    let mut lines = vec![];
-    while let Some((index, line)) = jsx_text_lines.next() {
-        let line = if index == 0 {
-            // first line
-            line.trim_end()
-        } else if jsx_text_lines.peek().is_none() {
-            // last line
-            line.trim_start()
-        } else {
-            line.trim()
-        };
+    let mut cleaned = String::with_capacity(text.len());
+    let mut lines = lines.into_iter().enumerate().peekable();
+    while let Some((index, line)) = lines.next() {
+        let line = line.replace('\t', " ");
+        let mut line = line.as_str();
+        if index != 0 {
+            line = line.trim_start_matches(' ');
+        }
+        if lines.peek().is_some() {
+            line = line.trim_end_matches(' ');
+        }
         if !line.is_empty() {
-            lines.push(line);
+            cleaned.push_str(line);
+            if Some(index) != last_non_blank {
+                cleaned.push(' ');
+            }
         }
     }
-    lines.join(" ")
+    cleaned
 }
